@@ -724,6 +724,18 @@ def emptyDisk : Disk (List Nat) T where
 theorem emptyDisk_clean (fuel : Nat) : Clean sums fuel emptyDisk :=
   ⟨mkSlot_valid .., ⟨[], rfl⟩, Or.inr (Or.inr rfl)⟩
 
+/-- a database holding `[1,2,3]` in page 1 (the medium after committing it to `emptyDisk`) -/
+def disk1 : Disk (List Nat) T where
+  primary := true
+  twoPhase := false
+  slots := fun j => if j = true then mkSlot sums 1 [⟨1, sums.page ⟨[1, 2, 3], []⟩⟩]
+                    else mkSlot sums 0 []
+  pages := fun m => if m = 1 then ⟨[1, 2, 3], []⟩ else ⟨[], []⟩
+
+/-- an UPDATE IN PLACE: the new state `[9]` is written over the live page 1 -/
+def inPlace : Plan (List Nat) T :=
+  { pages := [(1, ⟨[9], []⟩)], roots := [⟨1, sums.page ⟨[9], []⟩⟩], txid := 2 }
+
 end Example
 
 end Lumina.Proofs.RedbCommit
